@@ -1,5 +1,5 @@
 CONSTANTS
-  ID = {1, 2}
+  ID = {1, 2, 3}
   Mgr = {1}
   NoReq = 0
   AnnVals = {"k=a", "empty"}
@@ -8,10 +8,10 @@ CONSTANTS
   MaxHandles = 2
   OptMode = "one"
   MaxAnnList = 2
-INIT Init
-NEXT MCNext
-CONSTRAINT Bound
-ACTION_CONSTRAINT DerivedLeaf LogEdge
+INIT HandleInit
+NEXT MCNextHandle
+ACTION_CONSTRAINT HandlePhase LogEdge
 VIEW View
 INVARIANTS TypeOK C11_HandleWellFormed C11_ManagerInv
+PROPERTIES C11_ErrLeavesUnchanged C11_HandlesImmutable HandleMetaImmutable AccessorsPure AgreesWithC11 DerivedHandlesAgree NoSecretsGuard
 CHECK_DEADLOCK FALSE
